@@ -406,6 +406,8 @@ func ruleR10(p *Prog) []Ob {
 
 		// (c) short header read
 		obs = append(obs, p.shortReadObligation(ea, fn, label, props))
+		// (c2) a short payload read is never a clean end
+		obs = append(obs, p.payloadReadObligation(ea, fn, label, props))
 	}
 
 	// (d) may-be-empty results are not indexed without a length test
@@ -898,4 +900,150 @@ func nTestIsBoundary(cond ssa.Value, hdrLen int64) bool {
 		}
 	}
 	return false
+}
+
+// payloadReadObligation: a ReadAt that fills the (variable-size) payload of a record whose header
+// was already read can never legitimately hit the end of the file, whatever the byte count: no
+// return may hand its error on while it may still be io.EOF (every scan treats io.EOF as the clean
+// end of the segment).
+func (p *Prog) payloadReadObligation(ea *ErrAtoms, fn *ssa.Function, label string, props []string) Ob {
+	ob := Ob{Rule: "R10", Inst: "c2:payload-read:" + label, Props: props, Pos: p.posStr(fn.Pos()), Func: funcLabel(fn), Nontrivial: true}
+	var reads []*ssa.Call
+	for _, b := range fn.Blocks {
+		for _, ins := range b.Instrs {
+			c, ok := ins.(*ssa.Call)
+			if !ok || !strings.HasSuffix(calleeName(c.Common()), ").ReadAt") || len(c.Call.Args) < 2 {
+				continue
+			}
+			// destination is not a slice of a fixed-size local array
+			fixed := false
+			if sl, ok := c.Call.Args[1].(*ssa.Slice); ok {
+				if al, ok := sl.X.(*ssa.Alloc); ok && al.Comment != "makeslice" {
+					if _, isArr := derefPtr(al.Type()).Underlying().(*types.Array); isArr {
+						fixed = true
+					}
+				}
+			}
+			if !fixed {
+				reads = append(reads, c)
+			}
+		}
+	}
+	if len(reads) == 0 {
+		ob.Status, ob.Msg = Undecided, "no payload ReadAt found in the record decoder"
+		return ob
+	}
+	ob.Pos = p.at(reads[0])
+	isErrV := func(v ssa.Value) bool {
+		var chk func(v ssa.Value, d int) bool
+		chk = func(v ssa.Value, d int) bool {
+			if d > 6 {
+				return false
+			}
+			switch x := v.(type) {
+			case *ssa.Extract:
+				if c, ok := x.Tuple.(*ssa.Call); ok && x.Index == 1 {
+					for _, r := range reads {
+						if r == c {
+							return true
+						}
+					}
+				}
+			case *ssa.Phi:
+				for _, e := range x.Edges {
+					if chk(e, d+1) {
+						return true
+					}
+				}
+			}
+			return false
+		}
+		return chk(v, 0)
+	}
+	var errVals []ssa.Value
+	for _, b := range fn.Blocks {
+		for _, ins := range b.Instrs {
+			if v, ok := ins.(ssa.Value); ok && isErrType(v.Type()) && isErrV(v) {
+				errVals = append(errVals, v)
+			}
+		}
+	}
+	const (
+		EP = 1 << iota // eof possible
+		IM             // eof impossible
+	)
+	in := map[*ssa.BasicBlock]int{}
+	var work []*ssa.BasicBlock
+	push := func(b *ssa.BasicBlock, st int) {
+		if in[b]|st != in[b] {
+			in[b] |= st
+			work = append(work, b)
+		}
+	}
+	for _, r := range reads {
+		for _, s := range r.Block().Succs {
+			push(s, EP)
+		}
+	}
+	ei := errResultIndex(fn)
+	var bad []string
+	seen := map[string]bool{}
+	for len(work) > 0 {
+		b := work[len(work)-1]
+		work = work[:len(work)-1]
+		st := in[b]
+		switch t := terminator(b).(type) {
+		case *ssa.Return:
+			if b != fn.Recover && ei >= 0 && st&EP != 0 {
+				v := returnOperand(t, ei)
+				for _, ev := range errVals {
+					if derivesFromErr(v, ev, 0) {
+						if k := p.at(t); !seen[k] {
+							seen[k] = true
+							bad = append(bad, k+": returns the payload ReadAt error while it may still be io.EOF")
+						}
+					}
+				}
+			}
+		case *ssa.If:
+			s0, s1 := st, st
+			for _, cand := range condOperands(t.Cond) {
+				if !isErrV(cand) {
+					continue
+				}
+				if tt, ok := classifyErrCond(t.Cond, cand); ok {
+					apply := func(holds bool, s int) int {
+						switch tt.kind {
+						case "nil":
+							if holds {
+								return IM
+							}
+						case "eq", "is":
+							if tt.target == "X:io.EOF" {
+								if !holds {
+									return IM
+								}
+							} else if holds {
+								return IM
+							}
+						}
+						return s
+					}
+					s0, s1 = apply(tt.trueMeans, st), apply(!tt.trueMeans, st)
+				}
+			}
+			push(b.Succs[0], s0)
+			push(b.Succs[1], s1)
+		default:
+			for _, s := range b.Succs {
+				push(s, st)
+			}
+		}
+	}
+	if len(bad) > 0 {
+		ob.Status, ob.Msg, ob.Path = Violated, "a record whose header is present but whose payload is cut off is handed on as io.EOF, i.e. as the clean end of the segment", bad
+	} else {
+		ob.Status, ob.Msg = Discharged, fmt.Sprintf("%d payload read(s): the io.EOF outcome is always turned into a corruption sentinel", len(reads))
+	}
+	return ob
 }
